@@ -384,9 +384,15 @@ fcache_get_chunk(struct fcache *fc, struct fcache_chunk *fch,
 	while (remain) {
 		status = fcache_get(fc, curfce, fidx, pos);
 		if (status != KDUMP_OK) {
-			put_fces(curfce - nent, nent);
-			if (fces)
-				free(fces);
+			if (data) {
+				/* All entries were already released and
+				 * the array freed when copying started. */
+				free(data);
+			} else {
+				put_fces(curfce - nent, nent);
+				if (fces)
+					free(fces);
+			}
 			return status;
 		}
 
